@@ -1206,12 +1206,10 @@ func cloneRegexp(re *syntax.Regexp) *syntax.Regexp {
 		}
 	}
 
-	// Clone Sub0 (inline storage)
-	for i := range re.Sub0 {
-		if re.Sub0[i] != nil {
-			clone.Sub0[i] = cloneRegexp(re.Sub0[i])
-		}
-	}
+	// Sub0 is deliberately not followed: it is the parser's inline storage for Sub (already
+	// cloned above) and, in nodes the parser recycled, its free-list link, which can point
+	// back into the tree. Following it recursed forever (fatal stack overflow) on patterns
+	// such as .*(25[0-5]|2[0-4][0-9])err.*
 
 	return clone
 }
